@@ -1018,6 +1018,25 @@ def classify(tree, finding, real=None):
             sib = [k for k in node[0]['c'] if dict(map(tuple, k['a'])).get('name') == m.group(3)]
             if code == 'shadowed-by-not-mutual' and sib and 'shadowed-by' in dict(map(tuple, sib[0]['a'])):
                 return 'gen:shadowed-by-not-mutual:rename-to-chain'
+            if code == 'shadows-not-mutual' and not sib:
+                # m -> t_f : no sibling is called t_f, but a sibling <function> (a static function that
+                # _pair_static_method COPIED into this record/union/interface/boxed/enum, leaving the original
+                # `t_f` with moved-to= in the namespace) has the C symbol <ns prefix>_t_f: (rename-to) found the
+                # namespace-level original, so the method's shadows= names a function outside its container
+                # (and nothing at all when the original was pruned as non-introspectable)
+                tgt = m.group(3)
+                for k in node[0]['c']:
+                    ka = dict(map(tuple, k['a']))
+                    if k['t'] == 'function' and (ka.get('c:identifier') or '').endswith('_' + tgt) \
+                            and ka.get('name') != tgt and tgt.endswith('_' + (ka.get('name') or '\0')):
+                        return 'gen:shadows-not-mutual:rename-to-static-function-copied-into-type'
+            if code == 'shadowed-by-not-mutual' and not sib:
+                # the other half of the same situation: the namespace-level original (moved-to=Type.f) is written
+                # shadowed-by=<a method of Type>, which is not among ITS siblings
+                me = [dict(map(tuple, k['a'])) for k in node[0]['c']
+                      if dict(map(tuple, k['a'])).get('name') == m.group(1)]
+                if me and me[0].get('moved-to'):
+                    return 'gen:shadows-not-mutual:rename-to-static-function-copied-into-type'
         return 'gen:%s:other' % code
     if code == 'invoker-not-a-method':
         # v -> m : m is a <constructor> or a <function> of the same type
